@@ -95,6 +95,8 @@ type Path struct {
 	MapOrderHook  func(fr *frame, es []*mapEntry) []*mapEntry
 	LockHook      func(fr *frame, mu *Value, op string)
 	locks         map[*Value]*lockState
+	lockCb        Value // zzvf.OnLock
+	inLockCb      bool
 	ClockHook     func(fr *frame) Value
 	UnmarshalHook func(fr *frame, enc string, data Value, dst Iface) (Value, bool)
 
